@@ -175,3 +175,65 @@ Theorem prof_select_exact_partial : forall (re_match re_full : string -> string 
      List.In fp (prof_expected re_full D1 D2 sels series)).
 Proof. intros re_match re_full Hl. intros. now apply (prof_fp_select re_match re_full Hl). Qed.
 Print Assumptions prof_select_exact_partial.
+
+(* ---------- processHints: the rows the engine receives on the raw path when hints.Step <> 0 ----------
+   bucket_series / range_filter are the per-series list readings of the two rewrites (their agreement with
+   the reference interpreter on the implementation's statement is checked by computation on every generated
+   case, verdict 9 of hints_verdict); visible L T = what an instant selector shows at evaluation time T with
+   look-back L, window r T = the samples a range selector hands to its function at T. *)
+
+(* step bucketing does not preserve what instant selectors show: off the bucket grid a sample is re-stamped
+   into the future of the evaluation time *)
+Theorem step_bucket_lookup_refuted :
+  ~ (forall start step L T l, 0 < step -> asc l -> Forall (fun s => start <= fst s) l ->
+       visible L T (bucket_series start step l) = visible L T l).
+Proof.
+  intros H. specialize (H 0 7 300 6 [(5, 1)] ltac:(reflexivity)).
+  assert (H' : visible 300 6 (bucket_series 0 7 [(5, 1)]) = visible 300 6 [(5, 1)]).
+  { apply H; [repeat constructor|repeat constructor; cbn; discriminate]. }
+  vm_compute in H'. discriminate H'.
+Qed.
+Print Assumptions step_bucket_lookup_refuted.
+
+(* ... and even on the grid a sample just older than the look-back is shown again *)
+Theorem step_bucket_lookup_refuted_on_grid :
+  ~ (forall start step j L l, 0 < step -> asc l -> Forall (fun s => start <= fst s) l ->
+       visible L (start + j * step) (bucket_series start step l) = visible L (start + j * step) l).
+Proof.
+  intros H. specialize (H (-7) 7 3 14 [(-3, 1)] ltac:(reflexivity)).
+  assert (H' : visible 14 (-7 + 3 * 7) (bucket_series (-7) 7 [(-3, 1)]) = visible 14 (-7 + 3 * 7) [(-3, 1)]).
+  { apply H; [repeat constructor|repeat constructor; cbn; discriminate]. }
+  vm_compute in H'. discriminate H'.
+Qed.
+Print Assumptions step_bucket_lookup_refuted_on_grid.
+
+(* partial: at every evaluation time on the bucket grid (Start + j*Step; for the engine: when Step divides the
+   look-back) the bucketed series shows the value of the latest raw sample, and whatever Prometheus shows there
+   is still shown *)
+Theorem step_bucket_lookup_partial : forall start step j L l,
+  0 < step -> asc l -> Forall (fun s => start <= fst s) l ->
+  option_map snd (latest_le (start + j * step) (bucket_series start step l)) = option_map snd (latest_le (start + j * step) l) /\
+  (forall v, visible L (start + j * step) l = Some v -> visible L (start + j * step) (bucket_series start step l) = Some v).
+Proof.
+  intros start step j L l Hs Ha Hge. split; [now apply step_bucket_latest|]. intros v. now apply step_bucket_visible.
+Qed.
+Print Assumptions step_bucket_lookup_partial.
+
+(* the modulo filter drops samples of evaluated range windows when the evaluation times are off the absolute grid *)
+Theorem range_filter_windows_refuted :
+  ~ (forall step range T l, 0 <= range < step -> Forall (fun s => 0 <= fst s) l ->
+       window range T (range_filter step range l) = window range T l).
+Proof.
+  intros H. specialize (H 10 5 3 [(1, 9)] ltac:(split; [discriminate|reflexivity])).
+  assert (H' : window 5 3 (range_filter 10 5 [(1, 9)]) = window 5 3 [(1, 9)]).
+  { apply H. repeat constructor. cbn. discriminate. }
+  vm_compute in H'. discriminate H'.
+Qed.
+Print Assumptions range_filter_windows_refuted.
+
+(* partial: evaluation times that are multiples of Step keep every sample of their window [T - range, T] *)
+Theorem range_filter_windows_partial : forall step range k l,
+  0 <= range < step -> Forall (fun s => 0 <= fst s) l ->
+  window range (k * step) (range_filter step range l) = window range (k * step) l.
+Proof. exact range_filter_keeps_windows. Qed.
+Print Assumptions range_filter_windows_partial.
